@@ -11,15 +11,26 @@ def run(v, tier, replay):
                       "hostile frames are injected into the victim muxer's transport as an authenticated peer would send them; a witness tube must keep carrying data both ways and both muxers must stop within 8 s",
                       "decoder memory: bytes allocated during the call (runtime.MemStats.TotalAlloc delta) <= 256 KiB + 16 x bytes received"]
     binp = lib.go_build("c11")
-    r = lib.tlc("HopHostile", "MC_HopHostile_t.cfg" if thorough else "MC_HopHostile.cfg", timeout=300)
+    r = lib.tlc("HopHostile", "MC_HopHostile.cfg", timeout=300)
     lib.tlc_must_pass(r, "MC_HopHostile"); v.add_tlc("MC_HopHostile (class products, postcondition)", r)
     m = re.search(r'^<<"EDGES", "(.*)">>$', r.out, re.M)
     edges = json.loads(m.group(1).replace('\\"', '"'))
     fedges = {(e["t"], e["l"], e["a"], e["n"]) for e in edges["frames"]}
     dedges = {(e["d"], e["c"]) for e in edges["decoders"]}
     sd = lib.scratch("vf-c11-")
-    m = re.search(r'^<<"OPENS", "(.*)">>$', r.out, re.M)
-    opens = json.loads(m.group(1).replace('\\"', '"'))
+    # the session accept loop as a state machine: NoCrash, behaviours (tube-open sequences with the phase reached)
+    opens = []
+    for cfg in ["HopSession.cfg"] + (["HopSession_deep.cfg"] if thorough else []):
+        rs = lib.tlc("HopSession", cfg, timeout=300)
+        lib.tlc_must_pass(rs, cfg); v.add_tlc(cfg + " (session accept loop: NoCrash; behaviours emitted)", rs)
+        for m in re.finditer(r'^<<"SESS", "(.*)">>$', rs.out, re.M):
+            b = json.loads(m.group(1).replace('\\"', '"'))
+            if b not in opens:
+                opens.append(b)
+    rs = lib.tlc("HopSession", "HopSession_bad.cfg", timeout=120)
+    v.add_tlc("HopSession_bad.cfg (second execution tube identified by its type byte only: must violate NoCrash)", rs)
+    if rs.kind != "invariant":
+        raise lib.Inconclusive("self-test: HopSession_bad does not violate NoCrash (%s)" % rs.kind)
     nseeds = 5 if thorough else 1        # the frames' random payloads and the decoders' random inputs depend on the seed
     jobs = [("frames", str(g), k) for g in range(9) for k in range(nseeds)] + [("flood", "", k) for k in range(nseeds)] + [("decoders", "", k) for k in range(nseeds)]
     def child(j):
@@ -54,6 +65,17 @@ def run(v, tier, replay):
         if e["ev"] == "opens":
             v.case(("opens", json.dumps(e["seq"], sort_keys=True)))
     v.cov["open_sequences_in_spec"] = len(opens); v.cov["open_sequences_executed"] = len(done_i)
+    # conformance of the session model (not a property clause): a loop the model leaves accepting closes the unknown
+    # fence tube at once; a session the model shuts down answers nothing any more
+    diffs = []
+    for e in oev:
+        if e["ev"] == "session" and e.get("admitted") == "yes":
+            ph = opens[e["i"]]["phase"]
+            if (ph == "loop" and e["fence"] != "eof") or (ph == "closed" and e["fence"] == "eof"):
+                diffs.append((opens[e["i"]], e["fence"]))
+            else:
+                v.cov["traces_validated_against_impl"] += 1
+    v.cov["session_model_differences"] = len(diffs)
     ov = lib.read_ndjson(ov_out)
     for e in ov:
         if e["ev"] == "case":
@@ -89,6 +111,8 @@ def run(v, tier, replay):
     if not r.ok:
         raise lib.Inconclusive("trace not consumed: %s\n%s" % (r.kind, r.out[-1500:]))
     v.cov["traces_validated_against_impl"] += len(jobs)
+    if diffs and not v.violations:
+        raise lib.Inconclusive("session model and code differ on %d tube-open sequence(s), e.g. %s: the model says phase %s, the fence tube saw %s" % (len(diffs), json.dumps(diffs[0][0]["seq"]), diffs[0][0]["phase"], diffs[0][1]))
     v.cov["rule"] = "one case = one hostile frame injected (class x flag byte) or one byte string fed to a decoder; all are non-trivial (peer-controlled input)"
     for e in events[:2] + [e for e in events if e["ev"] == "decode"][:2]:
         v.sample(e)
@@ -101,7 +125,7 @@ def run(v, tier, replay):
         elif e["ev"] == "probe":
             sig = "witness tube broken after hostile frames %s: %s" % (e["after"], e["witness"][:80])
         elif e["ev"] == "session":
-            sq = [x for x in oev if x["ev"] == "opens" and x["i"] == e["i"]][0]["seq"]
+            sq = opens[e["i"]]["seq"]
             sig = "after the tube-open sequence %s the server no longer admits a connection" % json.dumps(sq, sort_keys=True)
         elif e["ev"] == "stop":
             sig = "muxer Stop did not return within 8 s after hostile frames (%s)" % e["group"]
